@@ -186,3 +186,29 @@ for f, key, alt in (('set_trans_model', 'trans_model', 'FreeTrans'), ('set_vib_m
                     ('set_nucl_model', 'nucl_model', 'EmptyNucl')):
     contract(X + f, P, label='replaces-an-earlier-entry', args=dict(model=Const(alt), output_structure=DictOf({key: Const('something else')})),
              ensures=["output_structure[%r].__name__ == %r" % (key, alt)], cross_check=False)
+
+# ---- every model a preset attaches to a mode can also be named in that mode's own column (and EmptyMode in every mode) -------
+PRESET_MODE_MODELS = [('set_trans_model', 'trans_model', 'EmptyMode', 'pmutt.statmech:EmptyMode'),
+                      ('set_vib_model', 'vib_model', 'EmptyMode', 'pmutt.statmech:EmptyMode'),
+                      ('set_rot_model', 'rot_model', 'EmptyMode', 'pmutt.statmech:EmptyMode'),
+                      ('set_elec_model', 'elec_model', 'EmptyMode', 'pmutt.statmech:EmptyMode'),
+                      ('set_nucl_model', 'nucl_model', 'EmptyMode', 'pmutt.statmech:EmptyMode'),
+                      ('set_elec_model', 'elec_model', 'ConstantMode', 'pmutt.statmech:ConstantMode'),
+                      ('set_elec_model', 'elec_model', 'ExtendedLSR', 'pmutt.statmech.lsr:ExtendedLSR')]
+for f, key, nm, qual in PRESET_MODE_MODELS:
+    contract(X + f, P, label='preset-model:' + nm, args=dict(model=Const(nm), output_structure=Const({})), ghost=dict(cls=ClassRef(qual)),
+             ensures=[('resolves-to-the-class', "output_structure[%r] is cls" % key)], cross_check=False)
+
+# ---- rows that share a formula: an element.X cell of one row does not reach the other row (nor a later read) -------------------
+contract(X + 'read_excel', P, label='same-formula-rows-with-an-element-column',
+         args=dict(io=Table(['name', 'formula', 'element.D'],
+                            [[Const('heavy'), Const('H2O'), Const(1)], [Const('light'), Const('H2O'), None],
+                             [Const('other'), Const('CH4'), None]])),
+         ensures=[('row-0-gets-its-cell', "result[0]['elements'] == {'H': 2, 'O': 1, 'D': 1}"),
+                  ('row-1-has-only-its-formula', "result[1]['elements'] == {'H': 2, 'O': 1}"),
+                  ('row-2-has-only-its-formula', "result[2]['elements'] == {'C': 1, 'H': 4}"),
+                  ('records-do-not-share-a-dictionary', "result[0]['elements'] is not result[1]['elements']")],
+         cross_check=False)
+
+from contracts import helpers
+helpers.install(P, 'formula')
